@@ -34,8 +34,9 @@ class UserFunction:
     def __init__(self, fun, defaults={}, args={}):
         if isinstance(fun, (UserFunction, DomainUserFunction)):
             self.fun = fun.fun
-            self.defaults = fun.defaults
-            self.args = fun.args
+            # copy, so that changing defaults of the new wrapper never changes the wrapped one
+            self.defaults = copy.copy(fun.defaults)
+            self.args = copy.copy(fun.args)
         else:
             self._transform_to_user_function(fun, defaults, args)
 
